@@ -84,7 +84,11 @@ def gen(rng):
     ht = G.home_trash_of(env)
     names = rng.choice([['foo'], ['foo'], ['foo', 'bar'], ['a b', 'foo'], ['x' * 200], ['L' * 250], ['é' * 120 + 'z' * 8],
                         # names that contain the info suffix, next to their stems: info/N.trashinfo is the only lock on files/N
-                        ['notes.trashinfo', 'notes'], ['x.trashinfo.trashinfo', 'x.trashinfo', 'x']])
+                        ['notes.trashinfo', 'notes'], ['x.trashinfo.trashinfo', 'x.trashinfo', 'x'],
+                        # names made of what is special to globs, regular expressions and format strings: a name is a name
+                        ['report[1].txt'], ['photos [2019]', 'photos 2'], ['[backup] notes'], ['a*b', 'aXb'], ['q?', 'qq'], ['100%d'], ['{0}'],
+                        # (246-253 bytes: NAME.trashinfo does not fit in NAME_MAX but NAME_<n> does)
+                        ['n' * 248], ['m' * 252, 'foo']])
     case = {'world': {'mounts': L['mounts'], 'steps': steps}, 'dirsalt': rng.randrange(1 << 30), 'mode': mode}
     state = rng.choice(['absent', 'absent', 'present', 'filled', 'filled', 'orphans'])
     if mode == 'crowded':
@@ -134,7 +138,7 @@ def gen(rng):
         # WITHOUT info sit at some of the numbers drawn later (leftovers of interrupted puts): each must survive, whatever number
         # is probed and whatever number is used
         crowded_script = [rng.choice([1, 2, 3]) for _ in range(6)] + [rng.randrange(200, 60000) for _ in range(40)]
-        for r_ in crowded_script[6:30]:
+        for r_ in sorted(set(crowded_script[6:30])):
             if rng.random() < 0.4:
                 steps.append(rng.choice([['f', ht + '/files/%s_%d' % (nm, r_), 'PRECIOUS orphan payload', 0o644],
                                          ['f', ht + '/files/%s_%d' % (nm, r_), 'PRECIOUS orphan payload', 0o644],
